@@ -1,4 +1,5 @@
-import Firefly.Proof.VmmAlloc
+import Firefly.Proof.VmmPdtFull
+import Firefly.Proof.VmmBoot
 /-!
 # C04 — Page-table operations implement exactly the requested address translation
 
@@ -49,21 +50,10 @@ theorem translate_correct {st : St} {R : W} (hw : Window st R) (va : W) (hs : Sa
             | none => (eInvalidMapping, 0)), st) :=
   translate_eq_hw hw va hs
 
-/-- Full statement of `map_refines`: for every state whose path tables form a tree with the free
-frames fresh, `Map page frame flags` (frame < 2^40, flags outside bits 12–51) makes the hardware
-translate `page` to `(frame, flags)`, leaves every other page's translation unchanged, zeroes each
-newly allocated level, flushes `page`, and with too few free frames returns the allocator's error
-without changing any translation.
-
-**Proved here (`_partial`)**: the case in which the three upper levels of the page exist (no new
-level): exact post-state — precisely one word of physical memory changes, to `frame<<12 | flags` —
-the hardware's resulting translation of the page, the flush list, and no allocation.  New levels:
-`map_new_level_step` (one level, any level), `map_new_leaf_table` (whole operation, one new level),
-`map_alloc_failure` (allocator empty at the first missing level).  Two or three new levels in one
-call, failure after a partial allocation and the frame rule across a new level are covered by the
-correspondence run and the oracle clauses `map-exact-entry`, `others-unchanged`, `new-level-empty`,
-`alloc-error-iff`, `fail-no-translation-change`. -/
-theorem map_refines_partial {st : St} {R T1 T2 T3 : W} (page frame flags : W) (hw : Window st R)
+/-- `Map` on a page whose three upper levels exist, at the level of individual memory words: exactly
+one word of physical memory changes, to `frame<<12 | flags`; the hardware's resulting translation of
+the page; the flush list; no allocation.  (The general case is `map_refines`.) -/
+theorem map_present_exact {st : St} {R T1 T2 T3 : W} (page frame flags : W) (hw : Window st R)
     (p : Path st.mem R (pageAddr page) T1 T2 T3)
     (hd : frameN T3 ≠ frameN R ∧ frameN T3 ≠ frameN T1 ∧ frameN T3 ≠ frameN T2)
     (hf : FrameOK frame) (hfl : FlagsOK flags)
@@ -196,14 +186,11 @@ theorem unmap_unmapped {st : St} {R : W} (page : W) (hw : Window st R) (L : Nat)
     unmapOp st page = .ok (eInvalidMapping, st) :=
   unmapOp_absent page hw L hL T hc hb hp
 
-/-- Full statement of `inactive_leaves_active_bit_identical`: `PageDirectoryTable.Map/Unmap` on a
-table that is not the active one leaves every word of every table of the active address space as it
-was.  **Proved here (`_partial`)** for `Map` when the page's three upper levels exist in the inactive
-table: after the call *every* word of physical memory except the leaf entry in the inactive table's
-own leaf table is bit-identical (the active root's last entry has been swapped and restored), the
-flushes are swapped-entry, page, restored-entry, and CR3 is unchanged.  New levels in the inactive
-table: correspondence + oracle clause `inactive-leaves-active-identical`. -/
-theorem inactive_leaves_active_bit_identical_partial {st : St} {A P T1 T2 T3 : W} (h : Inactive st A P)
+/-- `PageDirectoryTable.Map` on an inactive table whose path for the page exists, word by word: every
+word of physical memory except the leaf entry in the inactive table's own leaf table is bit-identical
+afterwards (the active root's last entry has been swapped and restored); flushes: swapped entry,
+page, restored entry.  (The general case is `inactive_leaves_active_bit_identical`.) -/
+theorem inactive_present_exact {st : St} {A P T1 T2 T3 : W} (h : Inactive st A P)
     (page frame flags : W) (p : Path st.mem (P <<< 12) (pageAddr page) T1 T2 T3)
     (hd : A.toNat ≠ frameN T1 ∧ A.toNat ≠ frameN T2 ∧ A.toNat ≠ frameN T3)
     (hg : (st.protect && frame == st.zeroFrame && (flags &&& fRW) != 0) = false) :
@@ -216,6 +203,125 @@ theorem inactive_leaves_active_bit_identical_partial {st : St} {A P T1 T2 T3 : W
   refine ⟨st', h1, ?_, ?_, h3, h4⟩
   · intro F j hne; rw [h2, if_neg hne]
   · rw [h2, if_pos ⟨rfl, rfl⟩]
+
+/-- **map_refines — `Map` in every case.**  `Good st R own`: the tables reachable from `R` form a tree
+(ghost map `own`), seen through the active root's recursive window, and the frames the allocator
+will hand out are RAM, < 2^40, pairwise distinct and outside the tree.  For every such state, every
+page outside the recursive slot, every frame and every flag word, `Map` never faults and:
+* on success (code 0) the abstract address space is the old one updated at the page to the entry
+  `frame<<12 | flags` (absent if the flags lack Present) — *all other pages unchanged* — and the
+  flush list is `[page]`;
+* on any error nothing is flushed and *no page's translation changes*; the error is the allocator's
+  (the allocator is then empty — possibly after some new, empty levels were created) or the
+  zero-frame guard's (state untouched);
+* every table created by the call is all-zero except the entry on the page's path; memory outside
+  the tree is untouched; the tree only grows, by frames taken from the front of the allocator;
+  the state is `Good` again (so the statement composes over histories). -/
+theorem map_refines {st : St} {R : W} {own : Own} (g : Good st R own) (page frame flags : W)
+    (hu : UserVA (pageAddr page)) :
+    ∃ code st' own', mapOp st page frame flags = .ok (code, st') ∧ Good st' R own' ∧
+      (code = 0 → st'.flushes = st.flushes ++ [pageAddr page] ∧
+        ∀ va', UserVA va' → hwEntry st'.mem R va' =
+          if SamePage va' (pageAddr page) then
+            (if mkEntry frame flags &&& 1#64 = 0#64 then none else some (mkEntry frame flags))
+          else hwEntry st.mem R va') ∧
+      (code ≠ 0 → st'.flushes = st.flushes ∧ (∀ va', UserVA va' → hwEntry st'.mem R va' = hwEntry st.mem R va') ∧
+        ((code = eAlloc ∧ st'.free = []) ∨
+         (code = eRWZero ∧ st' = st ∧ st.protect = true ∧ frame = st.zeroFrame ∧ (flags &&& fRW) ≠ 0))) ∧
+      (∀ F L pre j, own F = none → own' F = some (L, pre) → st'.mem.rd F j ≠ 0#64 → j = kidx (pageAddr page) L) ∧
+      (∀ F j, own' F = none → st'.mem.rd F j = st.mem.rd F j) ∧
+      (∀ F x, own F = some x → own' F = some x) ∧ (∃ used, st.free = used ++ st'.free) ∧ SameRegs st st' := by
+  obtain ⟨code, st', own', h1, post, out⟩ := mapOp_full g page frame flags hu
+  refine ⟨code, st', own', h1, post.good, ?_, ?_, post.newz, post.foot, post.ext, post.sub, post.regs⟩
+  · intro hc
+    rcases out with (⟨_, h2, h3⟩ | ⟨h1', _⟩) | ⟨h1', _⟩
+    · exact ⟨h2, h3⟩
+    · rw [h1'] at hc; simp [eAlloc] at hc
+    · rw [h1'] at hc; simp [eRWZero] at hc
+  · intro hc
+    rcases out with (⟨h1', _⟩ | ⟨h1', h2, h3, h4⟩) | ⟨h1', h2, h3, h4, h5⟩
+    · exact absurd h1' hc
+    · exact ⟨h3, h4, Or.inl ⟨h1', h2⟩⟩
+    · subst h2; exact ⟨rfl, fun _ _ => rfl, Or.inr ⟨h1', rfl, h3, h4, h5⟩⟩
+
+/-- **unmap_full — `Unmap` in every case**: either the page's leaf table exists — then the present bit
+of its entry is cleared, the page is absent afterwards, all other pages are unchanged, the page is
+flushed, nothing is allocated and memory outside the tree is untouched — or a level is missing — then
+`ErrInvalidMapping` is returned, the page was already absent and the state is unchanged. -/
+theorem unmap_full {st : St} {R : W} {own : Own} (g : Good st R own) (page : W) (hu : UserVA (pageAddr page)) :
+    ∃ code st', unmapOp st page = .ok (code, st') ∧
+      ((code = 0 ∧ Good st' R own ∧ SameRegs st st' ∧ st'.free = st.free ∧
+          st'.flushes = st.flushes ++ [pageAddr page] ∧
+          (∀ F j, own F = none → st'.mem.rd F j = st.mem.rd F j) ∧
+          (∀ F L pre j, own F = some (L, pre) → st'.mem.rd F j ≠ st.mem.rd F j →
+            L = 3 ∧ pre = idxs (pageAddr page) 3 ∧ j = kidx (pageAddr page) 3) ∧
+          ∀ va', UserVA va' → hwEntry st'.mem R va' =
+            if SamePage va' (pageAddr page) then none else hwEntry st.mem R va') ∨
+       (code = eInvalidMapping ∧ st' = st ∧ hwEntry st.mem R (pageAddr page) = none)) :=
+  unmapOp_full g page hu
+
+/-- **Translate, abstractly**: for every address outside the recursive slot, `Translate` returns the
+abstract entry's frame address plus the page offset, or `ErrInvalidMapping` if the page is absent,
+and changes nothing. -/
+theorem translate_abstract {st : St} {R : W} {own : Own} (g : Good st R own) (va : W) (hu : UserVA va) :
+    translate st va =
+      .ok ((match hwEntry st.mem R va with
+            | some e => (0, (e &&& hwMask) + (va &&& 0xfff#64))
+            | none => (eInvalidMapping, 0)), st) :=
+  translate_abs g va hu
+
+/-- **history — every sequence of `Map` / `Unmap` requests.**  From every well-formed state, for every
+list of requests on pages outside the recursive slot (any frames, any flags, allocator running out
+anywhere): no request faults, the state stays well formed, and the address space the hardware sees
+afterwards is the fold of the abstract updates (`absStep`): the most recent successful `Map` of a
+page wins, a page unmapped or never mapped is absent, a request never affects another page, a failed
+request affects nothing. -/
+theorem history {R : W} (ops : List Op) (st : St) (own : Own) (g : Good st R own)
+    (hu : ∀ op ∈ ops, UserVA (pageAddr op.page)) :
+    ∃ codes st' own', runOps st ops = .ok (codes, st') ∧ codes.length = ops.length ∧ Good st' R own' ∧
+      SameRegs st st' ∧
+      ∀ va', UserVA va' → hwEntry st'.mem R va' = absRun (hwEntry st.mem R) ops codes va' :=
+  history_refines ops st own g hu
+
+/-- the fold is decided from the end: the last request on a page determines its entry -/
+theorem history_last_wins (as : AS) (ops : List Op) (cs : List Nat) (op : Op) (c : Nat) (h : cs.length = ops.length) :
+    absRun as (ops ++ [op]) (cs ++ [c]) = absStep (absRun as ops cs) op c :=
+  absRun_snoc as ops cs op c h
+
+/-- **inactive_leaves_active_bit_identical — `PageDirectoryTable.Map` on a table that is not active,
+every case.**  `Dual st A P ownA ownP`: the active address space (root frame `A`) and the inactive one
+(root frame `P`) are both well formed and share no table; the allocator's frames belong to neither.
+Then for every page outside the recursive slot, every frame and flags, whatever number of new levels
+the call creates and wherever the allocator fails: the call never faults; *every word of memory that
+is not part of the inactive table's own tree is bit-identical afterwards* — all tables of the active
+address space, the active root's last entry (swapped and restored) included; CR3 is unchanged; the
+inactive address space changes exactly as `map_refines` says; flushes are swapped entry, (page,)
+restored entry; both address spaces are again well formed and disjoint. -/
+theorem inactive_leaves_active_bit_identical {st : St} {A P : W} {ownA ownP : Own} (d : Dual st A P ownA ownP)
+    (page frame flags : W) (hu : UserVA (pageAddr page)) :
+    ∃ code st' ownP', pdtMap st P page frame flags = .ok (code, st') ∧ Dual st' A P ownA ownP' ∧
+      (∀ F x, ownP F = some x → ownP' F = some x) ∧
+      (∀ F j, ownP' F = none → st'.mem.rd F j = st.mem.rd F j) ∧
+      (∀ F x, ownA F = some x → ∀ j, st'.mem.rd F j = st.mem.rd F j) ∧
+      SameRegs st st' ∧ (∃ used, st.free = used ++ st'.free) ∧
+      PdtOutcome st st' A P (pageAddr page) (mkEntry frame flags) code frame flags := by
+  obtain ⟨code, st', ownP', h1, d', h2, h3, h4, h5, h6⟩ := pdtMap_full d page frame flags hu
+  refine ⟨code, st', ownP', h1, d', h2, h3, ?_, h4, h5, h6⟩
+  intro F x hF j
+  exact h3 F j (d'.disj F (by rw [hF]; simp))
+
+/-- the same for `PageDirectoryTable.Unmap` on an inactive table: no fault, every word outside the
+inactive tree (all active tables, entry 511 swapped and restored) bit-identical, the inactive address
+space loses the page or `ErrInvalidMapping` is returned and nothing changes. -/
+theorem inactive_unmap_leaves_active_bit_identical {st : St} {A P : W} {ownA ownP : Own}
+    (d : Dual st A P ownA ownP) (page : W) (hu : UserVA (pageAddr page)) :
+    ∃ code st', pdtUnmap st P page = .ok (code, st') ∧ Dual st' A P ownA ownP ∧
+      (∀ F j, ownP F = none → st'.mem.rd F j = st.mem.rd F j) ∧ SameRegs st st' ∧ st'.free = st.free ∧
+      ((code = 0 ∧ ∀ va', UserVA va' → hwEntry st'.mem (P <<< 12) va' =
+          if SamePage va' (pageAddr page) then none else hwEntry st.mem (P <<< 12) va') ∨
+       (code = eInvalidMapping ∧ hwEntry st.mem (P <<< 12) (pageAddr page) = none ∧
+          ∀ va', UserVA va' → hwEntry st'.mem (P <<< 12) va' = hwEntry st.mem (P <<< 12) va')) :=
+  pdtUnmap_full d page hu
 
 /-- **Region mapping maps exactly the pages of the region**: the page loop of `MapRegion` /
 `IdentityMapRegion` is `Map` applied, in order, to `n` consecutive pages paired with `n` consecutive
@@ -248,5 +354,12 @@ example : Path exSt.mem 0x1000#64 (pageAddr 0) 0x2000#64 0x3000#64 0x4000#64 :=
    ⟨by decide, by decide, by decide, by decide⟩, by decide⟩
 example : FrameOK 77#64 ∧ FlagsOK 3#64 := by unfold FrameOK FlagsOK; decide
 example : (mapOp exSt 0 77#64 3#64).toOption.map (·.1) = some 0 := by decide
+
+
+/-- the hypothesis of `map_refines` / `history` holds of the boot state (`Proof/VmmBoot.lean`): every
+history from boot is covered -/
+example : Good bootSt 0x1000#64 bootOwn := boot_good
+
+example : UserVA (pageAddr 0x12345#64) := by unfold UserVA; decide
 
 end Firefly.C04
